@@ -80,6 +80,32 @@ def sea_cases(out: Outcome, rng, n_cases: int, lines, expect) -> None:
         if any(not np.array_equal(a[0], b[0]) or a[1] != b[1] for a, b in zip(data, again)):
             out.violation("SEA: two generators with equal seeds produce different datasets", rep)
         out.case(rep)
+    # data sets of thousands of samples KEPT by the caller (`list(...)`, append-then-`np.array`): every sample handed out stays what it was when it was handed out, and the
+    # label rule holds on the kept data
+    for case in range(2):
+        seed, block, noise = rng.randint(0, 2**31 - 1), rng.choice([1, 2, 3, 4]), (0.0 if case == 0 else rng.choice([0.0, 0.1]))
+        n = rng.choice([1025, 1500, 2100, 3000, 4100])
+        rep = {"generator": "SEA", "seed": seed, "block": block, "noise": noise, "num_samples": n, "kind": "kept samples"}
+        kept, copies = [], []
+        for X, y in SEA(seed=seed).generate_dataset(block=block, noise=noise, num_samples=n):
+            kept.append((X, y))
+            copies.append((np.array(X, copy=True), y))
+        if len(kept) != n:
+            out.violation(f"SEA: {len(kept)} samples generated for num_samples={n}", rep)
+        changed = next((i for i, ((X, y), (Xc, yc)) in enumerate(zip(kept, copies)) if not np.array_equal(X, Xc) or y != yc), None)
+        if changed is not None:
+            out.violation(f"SEA: sample {changed} of {n}, kept by the caller, is no longer what it was when the generator handed it out (was {copies[changed][0]!r}, "
+                          f"reads {kept[changed][0]!r} after the data set was consumed)", rep)
+        elif noise == 0:
+            bad = next((i for i, (X, y) in enumerate(kept) if int(y) != (1 if X[0] + X[1] <= THR[block] else 0)), None)
+            if bad is not None:
+                out.violation(f"SEA(block={block}, noise=0): kept sample {bad} with x0+x1={kept[bad][0][0] + kept[bad][0][1]!r} has label {kept[bad][1]}", rep)
+        if any(len(X) != 3 or not all(0 <= v < 10 for v in X) for X, _ in kept):
+            out.violation("SEA: a kept sample has features outside [0,10)", rep)
+        again = list(SEA(seed=seed).generate_dataset(block=block, noise=noise, num_samples=n))
+        if any(not np.array_equal(a[0], b[0]) or a[1] != b[1] for a, b in zip(copies, again[:n])) and changed is None:
+            out.violation("SEA: two generators with equal seeds produce different data sets (thousands of samples)", rep)
+        out.case(rep)
     # two datasets requested from one generator before the first is consumed: each keeps its own block
     for b1, b2 in ((1, 3), (3, 4), (2, 1)):
         g = SEA(seed=rng.randint(0, 10**6))
@@ -172,8 +198,9 @@ class FakeRaw:
     """urllib3's response object as far as a download needs it: `read` / `stream` deliver the WIRE bytes (compressed, when the server compressed them) unless the caller
     asks for decoding - `raw.decode_content = True` or `read(decode_content=True)`, the documented idiom - in which case they deliver the file"""
 
-    def __init__(self, wire: bytes, content: bytes, encoded: bool):
+    def __init__(self, wire: bytes, content: bytes, encoded: bool, error=None):
         self._wire, self._content, self._encoded = wire, content, encoded
+        self._error = error          # the body breaks off in transit: half of it is delivered, then the error is raised
         self.decode_content = False
         self._pos = 0
         self._mode = None
@@ -188,6 +215,11 @@ class FakeRaw:
 
     def read(self, amt=None, decode_content=None, cache_content=False):
         data = self._data(decode_content)
+        if self._error is not None:
+            cut = max(1, len(data) // 2)
+            if self._pos >= cut or amt is None or amt < 0:
+                raise self._error
+            data = data[:cut]
         if amt is None or amt < 0:
             out, self._pos = data[self._pos:], len(data)
         else:
@@ -263,6 +295,14 @@ class FakeResponse:
         yield from self.content.splitlines()
 
     def iter_content(self, chunk_size=1, decode_unicode=False):
+        if self._content_error is not None:
+            # a body that breaks off IN TRANSIT: whoever streams it has received part of it when the error surfaces (whoever asks for `.content` gets the error at once)
+            data = self._content
+            cut = max(1, len(data) // 2)
+            step = chunk_size or cut
+            for i in range(0, cut, step):
+                yield data[i: min(i + step, cut)]
+            raise self._content_error
         data = self.content
         step = chunk_size or len(data) or 1
         for i in range(0, len(data), step):
@@ -270,10 +310,8 @@ class FakeResponse:
 
     @property
     def raw(self):
-        if self._content_error is not None:
-            raise self._content_error
         if getattr(self, "_raw", None) is None:
-            self._raw = FakeRaw(self._wire, self._content, self.transfer == "gzip")
+            self._raw = FakeRaw(self._wire, self._content, self.transfer == "gzip", self._content_error)
         return self._raw
 
     def close(self):
@@ -527,6 +565,11 @@ def history_cases(out: Outcome, rng, lines, expect, n_cases: int) -> None:
                             out.violation(f"download() raised {type(e).__name__} in the history {rep['ops']}", rep)
                     if not loaded:
                         have = open(path, "rb").read() if os.path.exists(path) else None
+                        if outs[-1] == "DownloadError" and first_ok is None and any(m in EXTRA_MODES and EXTRA_MODES[m][0] == "content" for m in a):
+                            # every mirror failed and one of them broke off in the middle of its body: what the target file holds then is not fixed by the property
+                            # (an implementation that streams to the file has written a part) - the history goes on from whatever it holds
+                            out.count("file_unspecified_after_total_failure_with_a_broken_body")
+                            want_file = have
                         if have != want_file:
                             out.violation(f"download(): after the history {rep['ops'][:len(outs)]} (target file initially {init}) the file holds {have!r}, "
                                           f"expected exactly {want_file!r}", rep)
